@@ -117,7 +117,8 @@ impl Request {
             path_and_query_str.to_string(),
             http_request.uri().authority().map(|s| s.to_string()),
             http_request.uri().scheme_str().map(|s| s.to_string()),
-            example.method.clone(),
+            // A live request always has a method
+            Some(method.to_string()),
             None,
             None,
         );
